@@ -43,6 +43,18 @@ ReadBack(mf) == IF mf.k = "text" THEN <<mf.w, OptIn(mf)>> ELSE <<"local", NoDate
 (* What setting mode m on day d records.                                     *)
 Written(m, d) == Text(m, d, FALSE)
 
+(* ---- arguments given to SetMode ---------------------------------------------- *)
+(* An argument is a word m with white space around it: p names the padding      *)
+(* ("" none, "lead" a leading blank, "trail" a trailing blank, "tab" a trailing *)
+(* tab, "nl" a trailing newline, "crlf" a trailing CR LF, "both" blank + word + *)
+(* newline).  A padded valid mode may be rejected or taken as the mode without  *)
+(* the padding; nothing else.                                                   *)
+Pads == {"", "lead", "trail", "tab", "nl", "crlf", "both"}
+(* what the user meant by the last accepted SetMode: the mode file that call    *)
+(* had to leave behind; NoIntent when the file was last written by hand or not  *)
+(* at all                                                                       *)
+NoIntent == [k |-> "none", w |-> "", d |-> NoDate, pad |-> FALSE]
+
 IsModeFile(mf) == /\ mf.k \in {"absent", "unreadable", "text"}
                   /\ mf.d \in Int /\ mf.d >= BadDate
                   /\ mf.pad \in BOOLEAN
